@@ -197,7 +197,19 @@ def build_router(case: dict, trace: Trace, loop: vclock.VLoop, fn_tag: str = "",
                         except ValueError:
                             e.callbacks.append(("retry-refused", None, next(trace.spy.seq)))
                 leave(e, "eager")
-                await getattr(m, o["action"])()
+                try:
+                    await getattr(m, o["action"])()
+                finally:
+                    if o.get("then"):
+                        # while unwinding from the eager response the actor tries another action on the same handle:
+                        # the message is settled, the handle must refuse it and nothing may reach the broker
+                        try:
+                            await getattr(m, o["then"])()
+                            e.callbacks.append(("second-action-accepted", o["then"], next(trace.spy.seq)))
+                        except ValueError:
+                            e.callbacks.append(("second-action-refused", o["then"], next(trace.spy.seq)))
+                        except BaseException:  # noqa: BLE001  (the action went through and tried to end the actor again)
+                            e.callbacks.append(("second-action-accepted", o["then"], next(trace.spy.seq)))
                 e.after_eager_marker = True
                 return "after-eager"
             raise AssertionError(f"unknown outcome {o}")
